@@ -159,6 +159,28 @@ type Traffic struct {
 	UDPSize   int
 	Hostile   bool // hostile field contents (C05 pipeline tier)
 	mix       bool // next Data(): add a data set of a template this exporter never announced
+	fillTo    int  // next Data(): pad with an undecodable set / sample so that the datagram has exactly this many octets
+}
+
+// DataExact is a small decodable datagram brought to exactly size octets by one filler the decoder
+// skips by its declared length (IPFIX/v9: a set of a never-announced template; sFlow: a sample of an
+// unknown type; v5: as many flows as fit, only when size = 24+48k). nil if that size cannot be made.
+func (t *Traffic) DataExact(e []byte, id int, size int) []byte {
+	if t.Proto == "nf5" {
+		if size < 72 || (size-24)%48 != 0 || (size-24)/48 > 30 {
+			return nil
+		}
+		b := wire.GenNf5(t.G, 5, (size-24)/48, 0)
+		b[16], b[17], b[18], b[19] = byte(id>>24), byte(id>>16), byte(id>>8), byte(id)
+		return b
+	}
+	t.fillTo = size
+	defer func() { t.fillTo = 0 }()
+	b := t.Data(e, id, false)
+	if len(b) != size {
+		return nil
+	}
+	return b
 }
 
 // DataMixed is Data with one more set: a data set of a template id the exporter never announced
@@ -284,11 +306,14 @@ func (t *Traffic) Data(e []byte, id int, big bool) []byte {
 				sets = append(append(append([]wire.Set{}, sets[:at]...), u), sets[at:]...)
 			}
 		}
-		var b []byte
-		if t.Proto == "ipfix" {
-			b, _ = wire.EncodeFlow("ipfix", []uint32{g.U32(), uint32(id), g.U32(), 0}, sets)
-		} else {
-			b, _ = wire.EncodeFlow("nf9", []uint32{g.U32(), g.U32(), uint32(id), g.U32()}, sets)
+		hdr := []uint32{g.U32(), uint32(id), g.U32(), 0}
+		if t.Proto == "nf9" {
+			hdr = []uint32{g.U32(), g.U32(), uint32(id), g.U32()}
+		}
+		b, _ := wire.EncodeFlow(t.Proto, hdr, sets)
+		if fill := t.fillTo - len(b) - 4; t.fillTo > 0 && fill >= 0 && (t.Proto == "ipfix" || fill%4 == 0) {
+			sets = append(sets, wire.Set{Kind: wire.SetRaw, SetID: uint16(6000 + g.Intn(1000)), RawBody: g.Bytes(fill)})
+			b, _ = wire.EncodeFlow(t.Proto, hdr, sets)
 		}
 		return b
 	case "nf5":
@@ -327,6 +352,9 @@ func (t *Traffic) Data(e []byte, id int, big bool) []byte {
 		}
 		if len(d.Samples) == 0 {
 			d.Samples = []wire.SFSample{{TypeWord: 2, Kind: "counter", Seq: uint32(id)}}
+		}
+		if fill := t.fillTo - len(d.Encode()) - 8; t.fillTo > 0 && fill >= 0 && fill%4 == 0 {
+			d.Samples = append(d.Samples, wire.SFSample{TypeWord: 77, Kind: "unknown", Opaque: g.Bytes(fill)})
 		}
 		return d.Encode()
 	}
